@@ -91,7 +91,10 @@ type dnsAns struct {
 	ver      int
 	rrs      []dnsmessage.RR // owner name is filled in per reply
 	ips      []netip.Addr    // all addresses listed (incl. shared / unspecified)
-	ttl      uint32
+	ttl      uint32 // lifetime of the answer as a whole: the MINIMUM TTL over its records
+	ttlMax   uint32 // largest TTL of a record (== ttl unless the answer mixes TTLs)
+	ttlFirst uint32 // TTL of the first record
+	mix      int    // 0 uniform TTLs, 1 CNAME (long TTL) first then short-lived addresses, 2 first address long-lived, the others short
 	rcode    int
 	empty    bool
 	sentAt   time.Duration
@@ -401,10 +404,36 @@ func (w *dnsWorld) newAnswer(up, name int, qtype uint16) *dnsAns {
 	w.vers[k] = ver + 1
 	sp := w.specOf(up, name, qtype)
 	a := &dnsAns{id: len(w.answers) + 1, up: up, name: name, qtype: qtype, ver: ver, ttl: dnsTTLs[sp.ttlIdx]}
+	a.ttlMax, a.ttlFirst = a.ttl, a.ttl
 	w.answers = append(w.answers, a)
-	hdr := func(t uint16) dnsmessage.RR_Header {
-		return dnsmessage.RR_Header{Rrtype: t, Class: dnsmessage.ClassINET, Ttl: a.ttl}
+	// Mixed-TTL variants, derived from existing draws (no extra tape entry): the FIRST
+	// record keeps the scripted TTL, the later records get the next shorter one.
+	long, short := dnsTTLs[sp.ttlIdx], dnsTTLs[sp.ttlIdx]
+	if (qtype == dnsmessage.TypeA || qtype == dnsmessage.TypeAAAA) && sp.special != 1 && sp.ttlIdx > 0 {
+		switch (up + name + dnsTypeIdx(qtype) + ver) % 4 {
+		case 1:
+			a.mix, short = 1, dnsTTLs[sp.ttlIdx-1]
+		case 3:
+			a.mix, short = 2, dnsTTLs[sp.ttlIdx-1]
+		}
 	}
+	nrec := 0
+	hdr := func(t uint16) dnsmessage.RR_Header {
+		ttl := short
+		if nrec == 0 {
+			ttl = long
+		}
+		nrec++
+		return dnsmessage.RR_Header{Rrtype: t, Class: dnsmessage.ClassINET, Ttl: ttl}
+	}
+	if a.mix == 1 {
+		a.rrs = append(a.rrs, &dnsmessage.CNAME{Hdr: hdr(dnsmessage.TypeCNAME), Target: dnsAliasPrefix + dnsAllNames[name] + "."})
+	}
+	defer func() {
+		if a.mix != 0 {
+			a.ttl = short
+		}
+	}()
 	shared := sp.shared
 	if sp.drift {
 		shared = ((shared << (ver % 3)) | (shared >> (3 - ver%3))) & 7
@@ -425,6 +454,9 @@ func (w *dnsWorld) newAnswer(up, name int, qtype uint16) *dnsAns {
 		if sp.special == 2 {
 			a.ips = append(a.ips, netip.IPv4Unspecified())
 		}
+		if a.mix == 2 && len(a.ips) < 2 {
+			a.ips = append(a.ips, dnsSharedA[(name+ver)%3])
+		}
 		for _, ip := range a.ips {
 			a.rrs = append(a.rrs, &dnsmessage.A{Hdr: hdr(dnsmessage.TypeA), A: net.IP(ip.AsSlice())})
 		}
@@ -442,6 +474,9 @@ func (w *dnsWorld) newAnswer(up, name int, qtype uint16) *dnsAns {
 		}
 		if sp.special == 2 {
 			a.ips = append(a.ips, netip.IPv6Unspecified())
+		}
+		if a.mix == 2 && len(a.ips) < 2 {
+			a.ips = append(a.ips, dnsSharedAAAA[(name+ver)%3])
 		}
 		for _, ip := range a.ips {
 			a.rrs = append(a.rrs, &dnsmessage.AAAA{Hdr: hdr(dnsmessage.TypeAAAA), AAAA: net.IP(ip.AsSlice())})
@@ -464,9 +499,13 @@ func (w *dnsWorld) buildReply(a *dnsAns, id uint16, qname string, qtype uint16, 
 		m.Truncated = true
 	} else if a != nil {
 		m.Rcode = a.rcode
+		owner := qname
 		for _, rr := range a.rrs {
 			c := dnsmessage.Copy(rr)
-			c.Header().Name = qname
+			c.Header().Name = owner
+			if cn, ok := c.(*dnsmessage.CNAME); ok {
+				owner = cn.Target // the records after a CNAME belong to its target
+			}
 			m.Answer = append(m.Answer, c)
 		}
 	}
@@ -516,6 +555,31 @@ func (w *dnsWorld) decodeAnswers(rrs []dnsmessage.RR) (ids []int, ips []netip.Ad
 func (w *dnsWorld) ansByID(id int) *dnsAns {
 	if id >= 1 && id <= len(w.answers) {
 		return w.answers[id-1]
+	}
+	return nil
+}
+
+const dnsAliasPrefix = "alias."
+
+// dnsRecordsBelong checks owner names and types of an answer section for question
+// (qname, qtype): every record is owned by the question name or by the target of a
+// preceding CNAME, and is of the asked type or a CNAME. Returns the first offender.
+func dnsRecordsBelong(rrs []dnsmessage.RR, qname string, qtype uint16) (bad dnsmessage.RR) {
+	owners := []string{qname}
+	for _, rr := range rrs {
+		h := rr.Header()
+		ok := false
+		for _, o := range owners {
+			if strings.EqualFold(strings.TrimSuffix(h.Name, "."), strings.TrimSuffix(o, ".")) {
+				ok = true
+			}
+		}
+		if !ok || (h.Rrtype != qtype && h.Rrtype != dnsmessage.TypeCNAME) {
+			return rr
+		}
+		if cn, isCN := rr.(*dnsmessage.CNAME); isCN {
+			owners = append(owners, cn.Target)
+		}
 	}
 	return nil
 }
@@ -827,7 +891,7 @@ func (w *dnsWorld) react(q *dnsUpQuery) {
 		a := right()
 		w.deliver(q, w.buildReply(a, q.wireId, q.qname, q.qtype, false))
 		w.recordSent(q, a, q.wireId, "right")
-		s.Notef("upstream %d -> query #%d: answer a%d (ttl %d, %v)", q.up, q.seq, a.id, a.ttl, a.ips)
+		s.Notef("upstream %d -> query #%d: answer a%d (ttl %d, first record %d, mix %d, %v)", q.up, q.seq, a.id, a.ttl, a.ttlFirst, a.mix, a.ips)
 	case 1: // later
 		q.defers++
 		d := []time.Duration{time.Millisecond, 300 * time.Millisecond, 2 * time.Second, 6 * time.Second, 9 * time.Second}[T.Choose(5)]
